@@ -53,8 +53,35 @@ def _try(fn):
         return None
 
 
-def observe(f, g):
+def build_reassigned(f):
+    """a fitness object that was created with other values, hashed (e.g. put into a set), and then
+    given the values of `f` through the public `values` setter"""
+    if f.kind == 'S':
+        obj = SingleObjFitness(123.0, *([7.0] * len(f.b)))
+        hash(obj)
+        if f.a is None:
+            obj.reset()
+            return obj if not f.b else None
+        obj.values = (f.a,) + tuple(f.b)
+        return obj
+    if not f.a:
+        return None
+    obj = MultiObjFitness(values=tuple(9.0 for _ in f.a), weights=f.b)
+    hash(obj)
+    obj.values = tuple(f.a)
+    return obj
+
+
+def observe(f, g, mode='fresh'):
+    """mode: fresh = two independently built objects; same = one object on both sides (f is g);
+    reassigned = the left object got its values by re-assignment after having been hashed"""
     a, b = f.build(), g.build()
+    if mode == 'same':
+        b = a
+    elif mode == 'reassigned':
+        a = build_reassigned(f)
+        if a is None:
+            a = f.build()
     return {
         'lt': _try(lambda: a < b), 'eq': _try(lambda: a == b), 'ne': _try(lambda: a != b),
         'le': _try(lambda: a <= b), 'gt': _try(lambda: a > b), 'ge': _try(lambda: a >= b),
@@ -127,6 +154,18 @@ def run(ctx):
         meta.append((f, g, o))
         cl = classify(f, g)
         ctx.count('pairs', key=(f.key(), g.key()), nontrivial=(cl == 'comparable'), kind=cl, length=max(f.n(), g.n()))
+    # the same laws must hold when one object stands on both sides, and for objects whose values
+    # were re-assigned after they had been hashed (state must not leak through caches)
+    for f in fs:
+        o = observe(f, f, mode='same')
+        cases.append('(%s, %s, %s)' % (f.coq(), f.coq(), obs_coq(o)))
+        meta.append((f, f, o))
+        ctx.count('pairs', key=('same', f.key()), nontrivial=f.is_valid(), kind='same-object', length=f.n())
+    for f, g in pairs[::max(1, len(pairs) // 600)]:
+        o = observe(f, g, mode='reassigned')
+        cases.append('(%s, %s, %s)' % (f.coq(), g.coq(), obs_coq(o)))
+        meta.append((f, g, o))
+        ctx.count('pairs', key=('reassigned', f.key(), g.key()), nontrivial=(classify(f, g) == 'comparable'), kind='reassigned', length=max(f.n(), g.n()))
     ctx.set_exhaustive('pairs', exhaustive)
     # canary: a deliberately wrong observation must be flagged by the model
     f, g = F('S', 1.0, ()), F('S', 2.0, ())
